@@ -894,8 +894,10 @@ class Interp:
             if v is None:
                 v = TOP
             if type(node) in _SX_NODES and v.const is None and v.ty in _SX_TYS:
-                if not (isinstance(node, ast.Attribute) and v.sx is not None and self._is_data_attr(node, st)
-                        and v.sx_fn is not None and frame is not None and frame.fn is not None and v.sx_fn == frame.fn.qualname):
+                if isinstance(node, ast.Attribute) and v.sx is not None and self._self_property_sx(node, v, frame):
+                    pass  # self.<property>: stands for the property's own expression over self
+                elif not (isinstance(node, ast.Attribute) and v.sx is not None and self._is_data_attr(node, st)
+                          and v.sx_fn is not None and frame is not None and frame.fn is not None and v.sx_fn == frame.fn.qualname):
                     v = v.w(sx=self.sx_build(node))
         self.values_store(node, v, frame)
         return v
@@ -905,6 +907,26 @@ class Interp:
         if t is None:
             t = self._sx_cache[('own', id(node))] = norm_text(node)
         return t
+
+    def _self_property_sx(self, node, v, frame):
+        """`self.<name>` where <name> is a property of the package whose returned expression mentions only `self` (and imported
+        modules): inside a method of the same object that expression means the same thing."""
+        if not (isinstance(node.value, ast.Name) and node.value.id == 'self' and frame is not None and frame.fn is not None and frame.fn.cls is not None):
+            return False
+        key = ('selfprop', frame.fn.cls.qualname, node.attr, v.sx)
+        hit = self._sx_cache.get(key)
+        if hit is None:
+            hit = False
+            fi = self.p.find_method(frame.fn.cls, node.attr)
+            if fi is not None and fi.is_property and len(v.sx) < 200:
+                try:
+                    tree = ast.parse(v.sx, mode='eval')
+                    names = {n.id for n in ast.walk(tree) if isinstance(n, ast.Name)}
+                    hit = 'self' in names and all(n == 'self' or n in frame.module.imports for n in names)
+                except SyntaxError:
+                    hit = False
+            self._sx_cache[key] = hit
+        return hit
 
     def _is_data_attr(self, node, st):
         b = self.last.get(id(node.value))
